@@ -270,3 +270,28 @@ func rootReaderLifecycle() string {
 	}
 	return ""
 }
+
+// bigLoadCases: the loaders and sequential readers return all 70 000 blocks of the large archive, in order
+// (the batching loaders hand blocks to PutMany in batches of 1000).
+func bigLoadCases() [][2]string {
+	file, secs := bigArchive()
+	var out [][2]string
+	for _, kind := range []string{"root.LoadCar(batch)", "internal.LoadCar(batch)", "root.LoadCar", "internal.LoadCar", "root.CarReader", "v2.BlockReader"} {
+		_, got, err := readAllWith(kind, file, file, false)
+		if err != nil {
+			out = append(out, [2]string{kind, "fails on a valid archive: " + err.Error()})
+			continue
+		}
+		if len(got) != len(secs) {
+			out = append(out, [2]string{kind, fmt.Sprintf("%d blocks of %d arrived", len(got), len(secs))})
+			continue
+		}
+		for i, b := range got {
+			if !b.Cid().Equals(secs[i].c) || len(b.RawData()) != 4 || binary.BigEndian.Uint32(b.RawData()) != uint32(i) {
+				out = append(out, [2]string{kind, fmt.Sprintf("block %d is not section %d of the archive", i, i)})
+				break
+			}
+		}
+	}
+	return out
+}
